@@ -55,6 +55,8 @@ let tok_of_out (o : mout out) : string =
   | OCore (_, Noc (name, o, nw)) -> Printf.sprintf "noc:%d:%s:%d" (int_of_n o) (hex_of_bytes name) (int_of_n nw)
   | OCore (_, NoReply (c, sr)) -> Printf.sprintf "noreply:%d:%d" (int_of_n c) (int_of_n sr)
   | OCore (_, Refused (c, sr)) -> Printf.sprintf "limit:%d:%d" (int_of_n c) (int_of_n sr)
+  | OCore (_, ActFail (c, sr)) -> Printf.sprintf "actfail:%d:%d" (int_of_n c) (int_of_n sr)
+  | OCore (_, ActOk (c, sr)) -> Printf.sprintf "actok:%d:%d" (int_of_n c) (int_of_n sr)
   | OGone c -> Printf.sprintf "gone:%d" (int_of_n c)
   | ORefused c -> Printf.sprintf "refused:%d" (int_of_n c)
 
